@@ -713,6 +713,14 @@ pub struct Not<I> {
     filter: FilterAny,
 }
 
+#[cfg(olson_sean_k_wax_verif)]
+impl<I> Not<I> {
+    /// Verification hook: the (exhaustive, nonexhaustive) partition patterns of the negation.
+    pub fn verif_patterns(&self) -> (Option<String>, Option<String>) {
+        self.filter.verif_patterns()
+    }
+}
+
 impl<I> CancelWalk for Not<I>
 where
     I: CancelWalk,
